@@ -9,8 +9,9 @@ so the oracle observation is computed from scratch - fresh tree, replay of the e
 distinct edit list and memoised (`oracle`).  An oracle tree is never copied, never shared and never observed
 before its last edit."""
 import copy
+import pickle
 
-from pymoca import ast
+from pymoca import ast, parser
 from props.hflat import LIBS, inst, flat, same, tpl
 from vk.chstubs import pin, PIN
 
@@ -51,16 +52,19 @@ NAMES = LIBS[LIB][1]
 N = len(NAMES)
 tpl(LIB)
 
-# 0-5: the original edit kinds (payload: a fresh node).  6-7: initial equations.  8-11: the payload is TAKEN FROM
+# 0-5: the original edit kinds (payload: a fresh node).  6-7: initial equations.  12: classes added the way the CLI
+# and the CasADi API assemble a library, Tree.extend with a freshly parsed file ("within P; model NW ...").
+# 8-11: the payload is TAKEN FROM
 # A TREE, as a user who assembles a library from another one does: find_class() returns a private copy of the
 # class, copy.deepcopy(class) / copy.deepcopy(symbol) are the documented way to duplicate a node; such copies
 # keep a reference to the parent they were copied under (Class.__deepcopy__ pins it).
 KINDS = ["add_symbol", "remove_symbol", "add_equation", "remove_equation", "add_class", "remove_class",
          "add_initial_equation", "remove_initial_equation",
          "add_class(find_class in the next tree, same place)", "add_class(find_class in the same tree, into a new package)",
-         "add_class(deepcopy of the next tree's class, into a new package)", "add_symbol(deepcopy of the next tree's symbol)"]
+         "add_class(deepcopy of the next tree's class, into a new package)", "add_symbol(deepcopy of the next tree's symbol)",
+         "Tree.extend(parsed file with a class for the same package)"]
 NBASE = 6          # kinds of the original family
-NPLAIN = 8         # kinds whose payload is a fresh node (no source tree needed)
+FROM_TREE = (8, 9, 10, 11)   # kinds whose payload is taken from a source tree (the others build a fresh node)
 SAME_TREE_SOURCE = (9,)
 
 
@@ -96,7 +100,7 @@ def _observed_names(nested):
 
 
 OBS = _observed_names(True)
-OBS_PLAIN = _observed_names(False)  # without the places only the transplanting kinds (>= NPLAIN) can fill
+OBS_PLAIN = _observed_names(False)  # without the places only the kinds in FROM_TREE can fill
 
 
 def _new_package(cls):
@@ -105,9 +109,23 @@ def _new_package(cls):
     return np
 
 
+_FILES = {}
+
+
+def _parsed_file(package, payload):
+    """A fresh tree parsed from a file that puts model NW into `package` (parsed once, unpickled per use)."""
+    if (package, payload) not in _FILES:
+        text = ("within %s;\n" % package if package else "") + "model NW\n  Real q;\nequation\n  q = %d;\nend NW;\n" % payload
+        part = parser.parse(text, bypass_cache=True)
+        if part is None:
+            raise ValueError("file does not parse: " + text)
+        _FILES[(package, payload)] = pickle.dumps(part)
+    return pickle.loads(_FILES[(package, payload)])
+
+
 def edit(t, kind, ci, payload, src=None):
     """Apply one edit through the public AST API.  Must behave identically on equal trees.
-    src: the tree a transplanted class/symbol is taken from (kinds >= NPLAIN)."""
+    src: the tree a transplanted class/symbol is taken from (kinds in FROM_TREE)."""
     cls = find(t, NAMES[ci])
     if kind == 0:
         s = ast.Symbol(name="nw", type=ast.ComponentRef(name="Real"))
@@ -155,6 +173,8 @@ def edit(t, kind, ci, payload, src=None):
         s = copy.deepcopy(pick[-1])
         s.name = "tr"
         cls.add_symbol(s)
+    elif kind == 12:
+        t.extend(_parsed_file(_prefix(NAMES[ci])[:-1], payload))
 
 
 # ---- observation ---------------------------------------------------------------------------------------------
@@ -235,7 +255,7 @@ def explore(chain, edits, vals, w=0, mode="flat"):
     steps = []
     for k, s, c, p in edits:
         srcside = s if k in SAME_TREE_SOURCE else (s + 1) % nt
-        d = (k, c, p, None if k < NPLAIN else hists[srcside])
+        d = (k, c, p, hists[srcside] if k in FROM_TREE else None)
         hists = hists[:s] + [hists[s] + (d,)] + hists[s + 1:]
         steps.append(list(hists))
     for hs in steps:
